@@ -257,6 +257,17 @@ def random_history(rng, A, cls, kw, length, multi=False, pick=False, unsat_core=
         elif multi and r < 0.995:
             H.append(["split", s])
             # ids of the parts are only known at run time; they are probed but not used as operands
+        elif len(live) >= 2 and rng.random() < 0.5:
+            # a solver object goes away (garbage collected) right after it was used: whoever shared something with it
+            # (a reused Z3 solver, child solvers, caches keyed by weak references) must not notice
+            victim = rng.choice([i for i in live if i != 0] or [live[-1]])
+            if victim != s or len(live) >= 2:
+                H.append(["satisfiable", victim, []])
+                H.append(["eval", victim, expr(), 2, []])
+                H.append(["drop", victim])
+                live.remove(victim)
+                if live:
+                    H.append(["satisfiable", rng.choice(live), extra()])
         else:
             H.append(["satisfiable", s, []])
     return H
@@ -616,6 +627,9 @@ def run_history(H, vars_, tid, cfg, step_hook=None):
                 sol.remove_replacements({B(op[2]).hash()})
             elif call == "drop":
                 del S[s]
+                del sol
+                import gc
+                gc.collect()
             else:
                 raise ValueError("unknown op " + call)
         except claripy.errors.UnsatError:
